@@ -8,7 +8,7 @@ CFG.4  every predefined memory zone is created with its own name, start and end
 import ast
 
 from engine.index import AnalysisError
-from engine.helpers import (resolver, filter_facts_at, describe_facts, unparse, walk_no_nested, returns, deref)
+from engine.helpers import (resolver, filter_facts_at, facts_at, describe_facts, unparse, walk_no_nested, returns, deref)
 from engine.types import bind_args
 
 MODEL = 'bespokeasm.assembler.model.AssemblerModel'
@@ -39,6 +39,12 @@ def cfg_accessors(ctx, only=None):
         ctx.check(ok, f'accessor:{name}', fn.site(real[0]) if real else fn.site(),
                   f'{name} is the list under predefined.{key} of the ISA definition, or empty',
                   '; '.join(unparse(r.value) for r in rr))
+        # `predefined:` with nothing under it is an empty section, not an error
+        res = resolver(ctx, fn, inline=False)
+        guarded = bool(real) and all(any(c == frozenset({('isnone', "self._config['predefined']", False)}) for c in facts_at(ctx, fn, r, res))
+                                     or "get('predefined'" in unparse(r.value) for r in real)
+        ctx.check(guarded, f'accessor:{name}:empty-section', fn.site(real[0]) if real else fn.site(),
+                  f'{name} treats an empty `predefined:` section (YAML null) as having no entries', 'the section is subscripted without a None test')
 
 
 def _field(ctx, fn, e, at, var):
